@@ -52,6 +52,7 @@ import (
 	"fmt"
 	"maps"
 	"math"
+	"math/bits"
 	"slices"
 	"sort"
 	"strings"
@@ -103,6 +104,9 @@ var outlines = []outline{
 	{"closepath-first", []geomref.Cmd{cl(), mv(5, 5), ln(6, 7)}},
 	{"closepath-only", []geomref.Cmd{cl()}},
 	{"ends-with-a-moveto-outside-the-rest", []geomref.Cmd{mv(10, 20), ln(110, 220), cl(), mv(300, -50)}},
+	// (the command list is an exported field: it can hold what the builder methods never produce)
+	{"closepath-with-numbers-and-an-undefined-command", []geomref.Cmd{mv(100, 100), ln(200, 300), {Kind: geomref.Close, Pts: []geomref.Point{{X: -500, Y: -400}}}, {Kind: geomref.Other, Raw: 9, Pts: []geomref.Point{{X: 1, Y: 2}, {X: 800, Y: 700}}}}},
+	{"undefined-commands-only", []geomref.Cmd{{Kind: geomref.Other, Raw: 200, Pts: []geomref.Point{{X: 10, Y: 20}}}, {Kind: geomref.Other, Raw: 0, Pts: []geomref.Point{{X: 3, Y: 4}, {X: 5, Y: 6}, {X: 7, Y: 8}}}}},
 	// thorough only from here
 	{"single-point", []geomref.Cmd{mv(10, 20)}},
 	{"curve-controls-outside-offset", []geomref.Cmd{mv(100, 100), cv(100, 500, 300, 500, 300, 100), ln(100, 100), cl()}},
@@ -124,9 +128,23 @@ func applyOutline(g *type1.Glyph, o outline) {
 		case geomref.Curve:
 			g.CurveTo(c.Pts[0].X, c.Pts[0].Y, c.Pts[1].X, c.Pts[1].Y, c.Pts[2].X, c.Pts[2].Y)
 		case geomref.Close:
-			g.ClosePath()
+			if len(c.Pts) == 0 {
+				g.ClosePath()
+				break
+			}
+			g.Cmds = append(g.Cmds, type1.GlyphOp{Op: type1.OpClosePath, Args: flatPts(c.Pts)})
+		case geomref.Other:
+			g.Cmds = append(g.Cmds, type1.GlyphOp{Op: type1.GlyphOpType(c.Raw), Args: flatPts(c.Pts)})
 		}
 	}
+}
+
+func flatPts(pts []geomref.Point) []float64 {
+	var out []float64
+	for _, p := range pts {
+		out = append(out, p.X, p.Y)
+	}
+	return out
 }
 
 var widthPool = []float64{500, 0, 250.5, -120, 1000}
@@ -254,7 +272,7 @@ func verdict(fs []finding, render func() string, outcome string, nontrivial bool
 	return v
 }
 
-func flat(r rect.Rect) [4]float64 { return [4]float64{r.LLx, r.LLy, r.URx, r.URy} }
+func flat(r rect.Rect) [4]float64    { return [4]float64{r.LLx, r.LLy, r.URx, r.URy} }
 func flat2(b geomref.Box) [4]float64 { return b.Flat() }
 
 func closeBox(got [4]float64, want geomref.Box, scale float64) bool {
@@ -720,7 +738,31 @@ func families(tier string) []mc.Family {
 		return checkMetrics(c, ac)
 	}
 	descFont := func(item int) string { return fmt.Sprintf("type1 geometry item %d", item) }
+	// item = (glyph set of one or two glyphs, matrix, encoding kind); every outline of the list by Choose
+	var smallMasks []int
+	for m := 1; m < 32; m++ {
+		if bits.OnesCount(uint(m)) <= 2 {
+			smallMasks = append(smallMasks, m)
+		}
+	}
+	fontGeomAll := func(c *mc.Ctx, item int) mc.Verdict {
+		kind := item % nKinds
+		mi := (item / nKinds) % len(matrices)
+		mask := smallMasks[item/nKinds/len(matrices)]
+		fc := fontCase{mask: mask, enc: encodingOfKind(kind), encDesc: encKindNames[kind], fm: matrices[mi]}
+		for i := range namePool {
+			if mask&(1<<i) != 0 {
+				fc.outline[i] = c.Choose(len(outlines))
+			}
+		}
+		return checkFont(c, fc)
+	}
 	return []mc.Family{
+		{
+			Name: "type1/every-outline-in-small-fonts", Items: len(smallMasks) * len(matrices) * nKinds, Body: fontGeomAll, Budget: budgets[0],
+			Rule:     fmt.Sprintf("item = glyph set of one or two glyphs (%d) x every font matrix (%d) x encoding kind (5); every present glyph takes every outline of the full list of %d by Choose - among them command lists that only a caller who fills the exported field can build (closepath carrying numbers, command values the format does not define): they are not moves, lines or curves and contribute nothing; checks and non-trivial as for type1/outlines-matrices", len(smallMasks), len(matrices), len(outlines)),
+			Describe: descFont, CrashKey: func(int) string { return "C19:crash:type1/every-outline-in-small-fonts" },
+		},
 		{
 			Name: "type1/encodings", Items: 32 * nEnc, Body: fontEnc, Budget: budgets[0],
 			Rule:     "item = glyph set (all 32 subsets of {.notdef,space,A,B,Aacute}) x encoding (nil, or every assignment of a name from {.notdef = unassigned, space, A, B, Aacute, zzz} to each of the codes 0, 65, 66, 255: 1296 vectors incl. all-.notdef, partial, names without glyph, 2-4 codes for one glyph); fixed outlines, standard matrix; all query methods checked for all 6 names; non-trivial = the library's answers contain a list of >= 2 names, a non-zero font box or a non-zero .notdef width",
